@@ -5,7 +5,9 @@
 From V.lib Require Import Prelude PyFloat PyVal.
 From V.model Require Import SimpleTypeLib.
 From V.proofs Require Import PyFloat_proofs SimpleTypeLib_proofs C11_instance C11_float_instance C11_write_instance C11_rows_custom
-  C11_regex C11_patterns C11_read_instance C11_rows_custom_read.
+  C11_regex C11_patterns C11_read_instance C11_rows_custom_read Props_proofs C11_roundtrip_instance C11_rows_custom_rt.
+From Coq Require Import QArith Qabs.
+Local Close Scope Q_scope.
 From V.gen Require Import GenC11.
 
 Theorem C11_write_ok_sound : forall d t, write_ok d t = true ->
@@ -204,6 +206,98 @@ Proof. exact R_Coordinate_long_measure_refuted. Qed.
 
 Example C11_ex_custom_read_rows : (0 < length (filter (fun p => N.eqb (snd p) 0) custom_read_verdicts))%nat.
 Proof. exact custom_read_rows_judged. Qed.
+
+Local Open Scope Q_scope.
+(** RT, classes without a canonical descriptor, per ATTRIBUTE ROW: whatever the kind of the class *)
+Theorem C11_RT_custom : forall r c k, In (r, c) (combine rows row_classes) -> kind_of c class_rts = Some k ->
+  kind_prop (ar_to_xml r) (ar_from_xml r) k.
+Proof. exact RT_rows_custom. Qed.
+Print Assumptions C11_RT_custom.
+
+(** exact classes: the statement of C11_RT *)
+Theorem C11_RT_custom_exact : forall r c, In (r, c) (combine rows row_classes) ->
+  rt_custom_verdict r c = 0%N -> exact_kind c = true ->
+  forall v s, ar_to_xml r v = Ok (PStr s) -> exists v', ar_from_xml r (PStr s) = Ok v' /\ py_eqb v' v = true.
+Proof. exact RT_rows_custom_exact. Qed.
+Print Assumptions C11_RT_custom_exact.
+
+(** quantum classes *)
+Theorem C11_RT_custom_quant : forall r c (q M : Q), In (r, c) (combine rows row_classes) ->
+  kind_of c class_rts = Some (KQuant q M) ->
+  forall v s, ar_to_xml r v = Ok (PStr s) ->
+  exists x f (j : Z), assigned v x /\ ar_from_xml r (PStr s) = Ok (PFloat f) /\ f_is_finite f = true
+    /\ (Qabs (Qv f - (x - M * inject_Z j)) <= q)%Q.
+Proof. exact RT_rows_custom_quant. Qed.
+Print Assumptions C11_RT_custom_quant.
+
+(** centipoints *)
+Theorem C11_RT_custom_floor : forall r c, In (r, c) (combine rows row_classes) ->
+  kind_of c class_rts = Some KFloor127 ->
+  forall v s, ar_to_xml r v = Ok (PStr s) ->
+  exists z, as_int v = Some z /\ (0 <= z <= 20116800)%Z
+    /\ ar_from_xml r (PStr s) = Ok (PInt (z / 127 * 127)) /\ (0 <= z - z / 127 * 127 < 127)%Z.
+Proof. exact RT_rows_custom_floor. Qed.
+Print Assumptions C11_RT_custom_floor.
+
+(** INSTANCE: every attribute row is judged by C11_RT, by C11_RT_custom ( verdict 0 ) or is an xsd:double row ( 3 ) *)
+Theorem C11_RT_all_rows_judged : rt_rows_unjudged = [].
+Proof. exact all_rows_rt_judged. Qed.
+Print Assumptions C11_RT_all_rows_judged.
+
+Theorem C11_RT_custom_rows_judged : (0 < length (filter (fun p => N.eqb (snd p) 0) custom_rt_verdicts))%nat.
+Proof. exact custom_rt_rows_judged. Qed.
+Print Assumptions C11_RT_custom_rows_judged.
+
+(** class level *)
+Theorem C11_RT_Coordinate : rt_exact ST_Coordinate__to_xml ST_Coordinate__from_xml.
+Proof. exact RT_Coordinate. Qed.
+Theorem C11_RT_Coordinate32 : rt_exact ST_Coordinate32__to_xml ST_Coordinate32__from_xml.
+Proof. exact RT_Coordinate32. Qed.
+Theorem C11_RT_BubbleScale : rt_exact ST_BubbleScale__to_xml ST_BubbleScale__from_xml.
+Proof. exact RT_BubbleScale. Qed.
+Theorem C11_RT_GapAmount : rt_exact ST_GapAmount__to_xml ST_GapAmount__from_xml.
+Proof. exact RT_GapAmount. Qed.
+Theorem C11_RT_Overlap : rt_exact ST_Overlap__to_xml ST_Overlap__from_xml.
+Proof. exact RT_Overlap. Qed.
+Theorem C11_RT_LblOffset : rt_exact ST_LblOffset__to_xml ST_LblOffset__from_xml.
+Proof. exact RT_LblOffset. Qed.
+Theorem C11_RT_TextSpacingPoint : forall v s, ST_TextSpacingPoint__to_xml v = Ok (PStr s) ->
+  exists z, as_int v = Some z /\ (0 <= z <= 20116800)%Z
+    /\ ST_TextSpacingPoint__from_xml (PStr s) = Ok (PInt (z / 127 * 127))
+    /\ (0 <= z - z / 127 * 127 < 127)%Z.
+Proof. exact RT_TextSpacingPoint. Qed.
+Theorem C11_RT_Percentage : rt_quant_f ST_Percentage__to_xml ST_Percentage__from_xml (1 # 100000) 0.
+Proof. exact RT_Percentage. Qed.
+Theorem C11_RT_PositiveFixedPercentage :
+  rt_quant_f ST_PositiveFixedPercentage__to_xml ST_PositiveFixedPercentage__from_xml (1 # 100000) 0.
+Proof. exact RT_PositiveFixedPercentage. Qed.
+Theorem C11_RT_TextSpacingPercent :
+  rt_quant_f ST_TextSpacingPercentOrPercentString__to_xml ST_TextSpacingPercentOrPercentString__from_xml (1 # 100000) 0.
+Proof. exact RT_TextSpacingPercent. Qed.
+Theorem C11_RT_TextFontScalePercent_partial :
+  rt_quant_f ST_TextFontScalePercentOrPercentString__to_xml ST_TextFontScalePercentOrPercentString__from_xml
+    fontscale_quantum 0.
+Proof. exact RT_TextFontScalePercent_partial. Qed.
+Theorem C11_RT_Angle : rt_quant_f ST_Angle__to_xml ST_Angle__from_xml (1 # 60000) 360.
+Proof. exact RT_Angle. Qed.
+Theorem C11_RT_PositiveFixedAngle :
+  rt_quant_x ST_PositiveFixedAngle__to_xml ST_PositiveFixedAngle__from_xml (1 # 60000) 360.
+Proof. exact RT_PositiveFixedAngle. Qed.
+Theorem C11_RT_HexColorRGB : rt_upper ST_HexColorRGB__to_xml ST_HexColorRGB__from_xml.
+Proof. exact RT_HexColorRGB. Qed.
+Theorem C11_RT_HexColorRGB_exact_refuted :
+  exists v s v', ST_HexColorRGB__to_xml v = Ok (PStr s) /\ ST_HexColorRGB__from_xml (PStr s) = Ok v' /\ py_eqb v' v = false.
+Proof. exact RT_HexColorRGB_exact_refuted. Qed.
+Theorem C11_RT_XsdDouble_partial : rt_repr XsdDouble__to_xml.
+Proof. exact RT_XsdDouble_partial. Qed.
+Theorem C11_RT_AxisUnit_partial : rt_repr ST_AxisUnit__to_xml.
+Proof. exact RT_AxisUnit_partial. Qed.
+Print Assumptions C11_RT_PositiveFixedAngle.
+Print Assumptions C11_RT_Angle.
+Print Assumptions C11_RT_TextFontScalePercent_partial.
+Print Assumptions C11_RT_AxisUnit_partial.
+
+Local Close Scope Q_scope.
 
 (** non-vacuity *)
 Example C11_ex_rows : (0 < length (filter (fun r => N.eqb (w_verdict r) 0) rows))%nat
